@@ -35,7 +35,7 @@ class SchemeRef:
         return self.ev.value(X.deriv_name(state))
 
     def x(self, state) -> RE:
-        return self.ev.env[state]
+        return self.ev.value(state)
 
     def euler(self, state) -> RE:
         return refsem.add(self.x(state), refsem.mul(self.ev.env[DT], self.f(state)))
